@@ -174,3 +174,22 @@ PROPS["C07"] = {
         {"func": "verifH_C07_challenge", "pkg": "activeauth", "params": {"N": [0, 7, 8, 9, 16]}, "unwind": 200, "redirect": {"github.com/gmrtd/gmrtd/cms.Asn1decodeSubjectPublicKeyInfo": "verifStubSpki", "(*github.com/gmrtd/gmrtd/cms.SubjectPublicKeyInfo).RsaPubKey": "verifStubRsaPubKeyFails"}, "no_replay": True, "expect_reach": ["sent"]},
     ],
 }
+
+_D = "github.com/gmrtd/gmrtd/document."
+_C15_REDIR = {_D + "NewCardAccess": "verifStubCardAccess", _D + "NewCardSecurity": "verifStubCardSecurity", _D + "NewEFDIR": "verifStubEFDIR", _D + "NewCOM": "verifStubCOM",
+              _D + "NewSOD": "verifStubSOD", _D + "NewDG1": "verifStubDG1", _D + "NewDG2": "verifStubDG2", _D + "NewDG7": "verifStubDG7", _D + "NewDG11": "verifStubDG11",
+              _D + "NewDG12": "verifStubDG12", _D + "NewDG13": "verifStubDG13", _D + "NewDG14": "verifStubDG14", _D + "NewDG15": "verifStubDG15", _D + "NewDG16": "verifStubDG16"}
+PROPS["C15"] = {
+    "patterns": ["./document"],
+    "harness": {"document": ["document/c15.go"]},
+    "level_text": "Claimed in part: gmrtd's own serialisation code, with the CBOR codec modelled as a value store (Marshal returns a handle bound to the Go value, Unmarshal of a handle returns it) and SHA-256 as an uninterpreted function. Export: for symbolic presence of the 14 file types with symbolic raw bytes, Document.ToCbor hands the encoder a record in which every present file appears byte-identically in its own field and absent files are empty, wrapped in {magic, version, SHA-256(payload), payload}. Import: for an arbitrary decoded envelope (magic right/foreign, version 0..3, checksum = SHA-256(payload) XOR arbitrary delta, arbitrary subset of fields, one constructor arbitrarily failing) NewDocumentFromCbor accepts only with the right magic, version <= supported, delta = 0 and no constructor failure, passes every field to its own constructor and places each result in its own slot. Evidence: ChipAuthEvidenceToCbor/NewChipAuthEvidenceFromCbor map every field of the three evidence kinds one to one and the import enforces magic, the version window [2,2] and the checksum.",
+    "level_note": "Not applicable to this technique: the byte-level statement (every single-byte substitution, truncation or extension of the blob is rejected or harmless) is a property of github.com/fxamacker/cbor/v2 (reflection) and SHA-256. The file constructors are replaced by recording stubs in the import harness (their parsing is C12/C19); harnesses using the codec model cannot be replayed natively. DocumentEx.ToCbor/UnmarshalVerifiableDoc compose the three checked functions with the same envelope pattern (checked under C14).",
+    "bounds": "files: presence symbolic for 3-4 of the 14 at a time (all four groups), others present (thorough: also absent); raw bytes of 1..3 bytes each; evidence fields of 1..3 bytes",
+    "outside": "CBOR encoding/decoding itself; blobs that are not encoder outputs; larger files (sizes do not influence this code)",
+    "assumptions": ["CBOR codec round-trips Go values", "SHA-256 as an uninterpreted function"],
+    "jobs": [
+        {"func": "verifH_C15_export", "pkg": "document", "params": {"group": [0, 1, 2, 3], "others": [0, 1]}, "unwind": 64, "no_replay": True, "expect_reach": ["exported"]},
+        {"func": "verifH_C15_import", "pkg": "document", "params": {"group": [0, 1, 2, 3], "others": [1]}, "params_thorough": {"others": [0, 1]}, "unwind": 64, "no_replay": True, "redirect": _C15_REDIR, "expect_reach": ["imported", "rejected"]},
+        {"func": "verifH_C15_evidence", "pkg": "document", "unwind": 64, "no_replay": True, "expect_reach": ["imported", "rejected"]},
+    ],
+}
